@@ -706,7 +706,23 @@ func (c *topoCircuit) Define(api frontend.API) error {
 			chal = append(chal, exp[w]...)
 		}
 	}
-	return sol.Verify(t.Hash, chal...)
+	if err := sol.Verify(t.Hash, chal...); err != nil {
+		return err
+	}
+	if c.assert {
+		// history: what Export returns must not depend on whether Verify has run (the in-circuit
+		// verifier works on the same assignment tables)
+		for _, w := range expWires {
+			again := sol.Export(vars[w])
+			if len(again) != t.N {
+				return fmt.Errorf("c19: Export after Verify returned %d values for %d instances", len(again), t.N)
+			}
+			for i := 0; i < t.N; i++ {
+				api.AssertIsEqual(again[i], exp[w][i])
+			}
+		}
+	}
+	return nil
 }
 
 // expectedTap flattens the reference values in the order the circuit taps them.
